@@ -72,7 +72,10 @@ def run_variant(spec_path, kind):
     d = make_scratch()
     res = dict(file=os.path.relpath(spec_path, HERE), kind=kind, ok=False)
     try:
-        apply_edits(d, spec["edits"])
+        apply_edits(d, spec.get("edits", []))
+        if spec.get("patch"):
+            pp = spec["patch"] if os.path.isabs(spec["patch"]) else os.path.join(HERE, spec["patch"])
+            subprocess.check_call(["git", "-C", d, "apply", pp])
         out = {}
         for p in spec["props"]:
             rc, rules, so, se = run_check(p, d)
@@ -130,6 +133,8 @@ def main():
     else:
         if a.mode in ("mutants", "all"):
             for f in sorted(glob.glob(os.path.join(HERE, "selftest", "mutants", "*", "*.json"))):
+                files.append((f, "mutant"))
+            for f in sorted(glob.glob(os.path.join(HERE, "seeded", "*", "check.json"))):
                 files.append((f, "mutant"))
         if a.mode in ("refactors", "all"):
             for f in sorted(glob.glob(os.path.join(HERE, "selftest", "refactors", "*.json"))):
